@@ -67,9 +67,6 @@ impl Dict {
     pub fn string(&self, i: usize) -> Option<&str> {
         self.strings.get(i).and_then(|e| e.as_deref())
     }
-    pub fn index_of(&self, name: &str) -> Option<usize> {
-        self.strings.iter().position(|e| e.as_deref() == Some(name))
-    }
 }
 
 struct Cur<'a> {
